@@ -24,6 +24,7 @@ macro_rules! dispatch {
       "C13" => $f::<props::c13::C13>($($arg),*),
       "C14" => $f::<props::c14::C14>($($arg),*),
       "C15" => $f::<props::c15::C15>($($arg),*),
+      "C16" => $f::<props::c16::C16>($($arg),*),
       other => { eprintln!("unknown property {}", other); std::process::exit(3) }
     }
   };
